@@ -232,6 +232,60 @@ func itemSlow(content int, idx []int, slow bool) *explore.Item {
 	}}
 }
 
+// txItem: one caller queries inside a transaction that holds an uncommitted row, another outside it, on one
+// batching context. Alone, the first sees its own write and the second does not (the fake driver isolates reads);
+// together they must get the same.
+func txItem(f1, f2 int) *explore.Item {
+	fs := filters()
+	name := fmt.Sprintf("tx %s | %s", fs[f1].name, fs[f2].name)
+	return &explore.Item{Name: name, Bound: -1, MaxSteps: 4000, Body: func(x *explore.Exec) {
+		newRow := &Person{Id: 9, Age: i64p(30), City: "sf", Score: 5, Tag: "x", Nick: "n", Blob: []byte("b"), CityId: 7}
+		run := func(batched bool) (inTx, outside outcome, ok bool) {
+			e := newEnv(0)
+			x.Cleanup(e.fdb.Close)
+			e.fdb.Isolate = true
+			ctx := context.Background()
+			if batched {
+				ctx = batch.WithBatching(ctx)
+			}
+			tctx, tx, err := e.db.WithTx(ctx)
+			if err != nil {
+				x.Fail("harness", "", "WithTx: %v", err)
+				return
+			}
+			if _, err := e.db.InsertRow(tctx, newRow); err != nil {
+				x.Fail("harness", "", "insert in tx: %v", err)
+				return
+			}
+			d1, d2 := false, false
+			if batched {
+				rt.Go(func() { inTx = e.runQuery(tctx, fs[f1]); d1 = true })
+				rt.Go(func() { outside = e.runQuery(ctx, fs[f2]); d2 = true })
+				rt.Quiesce()
+			} else {
+				inTx, d1 = e.runQuery(tctx, fs[f1]), true
+				outside, d2 = e.runQuery(ctx, fs[f2]), true
+			}
+			tx.Rollback()
+			return inTx, outside, d1 && d2
+		}
+		w1, w2, _ := run(false)
+		g1, g2, ok := run(true)
+		if !ok {
+			x.Fail("returns", "c10/tx/returns", "a query never returned")
+			return
+		}
+		if !reflect.DeepEqual(g1, w1) {
+			x.Fail("own-rows", "c10/tx/in-transaction", "query %s inside the transaction: with batching keys=%v err=%q, alone keys=%v err=%q", fs[f1].name, g1.keys, g1.err, w1.keys, w1.err)
+		}
+		if !reflect.DeepEqual(g2, w2) {
+			x.Fail("own-rows", "c10/tx/outside", "query %s outside the transaction: with batching keys=%v err=%q, alone keys=%v err=%q", fs[f2].name, g2.keys, g2.err, w2.keys, w2.err)
+		}
+		x.Outcome("tx")
+		x.Nontrivial()
+	}}
+}
+
 func stmts(d *fakesql.DB) string {
 	var parts []string
 	for _, s := range d.Log {
@@ -241,6 +295,19 @@ func stmts(d *fakesql.DB) string {
 }
 
 func parseItem(name string) *explore.Item {
+	if strings.HasPrefix(name, "tx ") {
+		qs := strings.Split(strings.TrimPrefix(name, "tx "), " | ")
+		fs := filters()
+		idx := []int{0, 0}
+		for n, q := range qs {
+			for i := range fs {
+				if fs[i].name == q {
+					idx[n] = i
+				}
+			}
+		}
+		return txItem(idx[0], idx[1])
+	}
 	var content int
 	slow := strings.HasPrefix(name, "slow ")
 	name = strings.TrimPrefix(name, "slow ")
@@ -261,6 +328,21 @@ func parseItem(name string) *explore.Item {
 func run(rp *explore.Report, tier string) {
 	fs := filters()
 	var k int64
+	// a query inside a transaction next to one outside it
+	for a := range fs {
+		if fs[a].table == "others" {
+			continue
+		}
+		for _, b := range []int{a, 0} {
+			if fs[b].table == "others" {
+				continue
+			}
+			k++
+			if rp.Mine(k) {
+				rp.Explore(txItem(a, b))
+			}
+		}
+	}
 	for content := range contents {
 		for a := range fs {
 			for b := a; b < len(fs); b++ {
@@ -301,5 +383,5 @@ func run(rp *explore.Report, tier string) {
 
 func init() {
 	reg.Register(&reg.Harness{Property: "C10", Name: "c10/sqlbatch", Level: "model_checking", Bounds: [2]int{1, 2}, Run: run, Item: parseItem,
-		Rule: fmt.Sprintf("3 table contents (duplicates + NULLs, single row, empty) x all pairs and a grid of triples of %d queries", len(filters())) + " (Query/QueryRow; filters on id, nullable column, string column, int32 column, implicitnull column (zero value = NULL), []byte column (nil), two columns, empty, nil; each value in the Go representations int / int64 / int32 / *int64 / named string / nil / typed nil pointer; a second table) run concurrently under one batch.WithBatching context (plus a grid of pairs whose SELECT stays in flight for a step, explored at bound 2 incl. an early wait-interval timer) over the real sqlgen.DB and an in-memory SQL driver with three-valued NULL logic, all schedules within the deviation bound; oracle: per query, rows (as a key multiset) and error kind equal the same query run alone without batching. non-trivial = executions in which the driver saw fewer statements than queries"})
+		Rule: fmt.Sprintf("3 table contents (duplicates + NULLs, single row, empty) x all pairs and a grid of triples of %d queries", len(filters())) + " (Query/QueryRow; filters on id, nullable column, string column, int32 column, implicitnull column (zero value = NULL), []byte column (nil), two columns, empty, nil; each value in the Go representations int / int64 / int32 / *int64 / named string / nil / typed nil pointer; a second table) run concurrently under one batch.WithBatching context (plus a grid of pairs whose SELECT stays in flight for a step, explored at bound 2 incl. an early wait-interval timer) over the real sqlgen.DB and an in-memory SQL driver with three-valued NULL logic, all schedules within the deviation bound; plus, for every filter, a query inside a transaction holding an uncommitted row next to a query outside it (the in-memory driver isolates reads); oracle: per query, rows (as a key multiset) and error kind equal the same query run alone without batching. non-trivial = executions in which the driver saw fewer statements than queries"})
 }
